@@ -526,6 +526,20 @@ func (sp *Specs) ParseSpecText(lines []specLine, file, pkgPath string) error {
 			}
 			fs := &FuncSpec{PkgPath: pkgPath, Name: fd.Name.Name, Header: hdr, Loops: map[int]*LoopSpec{}, File: file, Line: s.line, Assumed: assumed, Lemma: lemma, Opaque: map[string]bool{}}
 			fs.Key = headerKey(pkgPath, fd)
+			// closures: a header name F__2 stands for the anonymous function F$2 (F__1__1 for F$1$1)
+			if i := strings.Index(fd.Name.Name, "__"); i > 0 {
+				rest := fd.Name.Name[i:]
+				ok := true
+				for _, part := range strings.Split(strings.TrimPrefix(rest, "__"), "__") {
+					if _, err := strconv.Atoi(part); err != nil {
+						ok = false
+					}
+				}
+				if ok {
+					fs.Key = strings.TrimSuffix(fs.Key, rest) + strings.ReplaceAll(rest, "__", "$")
+					fs.Name = fd.Name.Name[:i]
+				}
+			}
 			if fd.Recv != nil && len(fd.Recv.List) > 0 && len(fd.Recv.List[0].Names) > 0 {
 				fs.RecvName = fd.Recv.List[0].Names[0].Name
 			}
